@@ -179,6 +179,12 @@ def observe_types(d, types, extra_cfg=None, sites=SITES, modes=MODES, progress=N
                                 "rust": ast, "key": rustgen.canon(types[idx]),
                                 "spelling": spellings[idx][site], "run_status": res.status,
                                 "declared": declared})
+                    if os.environ.get("VERIF_KEEP_UNPARSABLE") and (ts.get("k") == "unparsable" or zod.get("k") == "unparsable"):
+                        kd = os.path.join(os.environ["VERIF_KEEP_UNPARSABLE"], "b%d-%s" % (bi, mode))
+                        os.makedirs(kd, exist_ok=True)
+                        for fn_, tx in (texts or {}).items():
+                            open(os.path.join(kd, fn_), "w").write(tx)
+                        open(os.path.join(kd, "lib.rs"), "w").write(rustgen.types_project(cs)[0])
         return out
 
     with ThreadPoolExecutor(max_workers=min(12, C.NCPU)) as ex:
